@@ -45,6 +45,17 @@ theorem parse_literal_never_panics (O : Oracles) (t : VType) (s : Bytes) : ∀ s
   rw [h] at this
   simp [NP, Outcome.isPanic] at this
 
+/-- **`ValueType::parse` needs no oracle**: whatever facts a case ships (none, some, all), converting a text to a
+literal never stops for a missing fact — `f64::from_str` is `DecFloat.parseF64N` (Model/DecFloat.lean) and chrono's
+`%Y-%m-%d %H:%M:%S` parse is `Lit.parseTimestampLit` where no fact is shipped. -/
+theorem parse_literal_needs_no_oracle (O : Oracles) (t : VType) (s : Bytes) : ∀ w, parseLit O t s ≠ .oracleMissing w := by
+  intro w
+  unfold parseLit
+  cases t <;> simp only [] <;> (try split) <;> (try split) <;> (try split) <;> intro h <;> cases h
+
+/-- with no shipped fact a REAL literal is `f64::from_str` as computed in Lean -/
+theorem parse_real_is_parseF64 (s : Bytes) : parseLit {} .real s = .ok ((DecFloat.parseF64N s).map .real) := rfl
+
 /-- no silent wrap-around: an INT result is always the exact mathematical result, within 64 bits -/
 theorem int_arith_in_range (op : ArithOp) (x y r : Int) (h : arith op (.int x) (.int y) = .ok (.int r)) :
     inI64 r = true ∧ r = (match op with
